@@ -43,7 +43,7 @@ def collect_guards(repo, tables):
         for cls, func, path, pat, why in table:
             fn = repo.method(cls, func, path)[1] if cls else repo.func(path, func)
             qual = "%s.%s" % (cls, func) if cls else "%s::%s" % (path.split("/")[-1], func)
-            loops = [l for l in ast.walk(fn) if isinstance(l, ast.For) and _re.search(pat, src(l.iter))]
+            loops = [l for l in ast.walk(fn) if isinstance(l, ast.For) and any(_re.search(pat, t_) for t_ in _spellings(l.iter))]
             g = repo.cfg(fn)
             for l in loops:
                 hd = [x for x in g.nodes() if g.data(x)["kind"] == "loop" and g.data(x)["ast"] is l]
@@ -57,6 +57,18 @@ def collect_guards(repo, tables):
     return sorted(out)
 
 
+def _spellings(node):
+    """source text of `node` in resolved form and with the pinned tree's alias names folded back (engine/alpha.py)"""
+    from . import alpha
+    t = src(node)
+    out = [t]
+    key, aliases = alpha.pattern_aliases(node)
+    for name, chain in sorted(aliases.items(), key=lambda kv: -len(kv[1])):
+        t = re.sub(r"(?<![\w.])" + re.escape(chain) + r"(?![\w])", name, t)
+    out.append(t)
+    return out
+
+
 def check(ctx, repo, rule, table):
     n = 0
     for cls, func, path, pat, why in table:
@@ -68,7 +80,7 @@ def check(ctx, repo, rule, table):
             fn = repo.func(path, func)
             qual = "%s::%s" % (path.split("/")[-1], func)
             p = path
-        loops = [l for l in ast.walk(fn) if isinstance(l, ast.For) and re.search(pat, src(l.iter))]
+        loops = [l for l in ast.walk(fn) if isinstance(l, ast.For) and any(re.search(pat, t_) for t_ in _spellings(l.iter))]
         if not loops:
             ctx.undecided(rule, "%s/for:%s" % (qual, pat), "apply-to-all loop no longer found (restructured?)", "%s:%d" % (p, fn.lineno))
             continue
@@ -104,6 +116,13 @@ def check(ctx, repo, rule, table):
                                   "`%s` at line %d (guard: %s) leaves the function before the loop `for %s in %s` is reached: on that path no "
                                   "element is treated (%s)" % (src(ra), ra.lineno, " and ".join(tests) or "none", src(l.target), src(l.iter)[:60], why),
                                   "%s:%d" % (p, ra.lineno))
+            # no value leaks from one element to the next (a variable assigned only on some paths of the body and read in it)
+            if not outer:
+                for nm, un, first in Q.loop_leaks(fn, l, g):
+                    ctx.violation(rule, "%s/for:%s#%d/carry(%s)" % (qual, pat, k, nm),
+                                  "`%s` is assigned only on some paths through the body of `for %s in %s` (first at line %d) but read at line %d: for "
+                                  "an element that takes another path the value of an earlier element (or the one from before the loop) is used (%s)" % (
+                                      nm, src(l.target), src(l.iter)[:50], first.lineno, g.line(un), why), "%s:%d" % (p, g.line(un)))
             ex = Q.early_exits(l)
             ctx.check(not ex, rule, "%s/for:%s#%d" % (qual, pat, k), "visits every element (%s)" % why,
                       "`%s` at line %d leaves the loop `for %s in %s` before every element is treated (%s)" % (
